@@ -94,7 +94,7 @@ def gen(rng, tier):
     spec = {"mode": mode, "op": rng.randrange(len(OPS)), "nb": rng.randrange(len(NONBLOCKING)), "val": rng.choice(sorted(VALUES)),
             "state": rng.choice(["resolved", "failed", "pending", "pending", "never"]) if mode != "nocancel" else rng.choice(["resolved", "failed", "pending", "pending", "never", "ext-cancel", "ext-cancel"]),
             "resolve_at": rng.choice([0, 0.05, 0.1, 0.5]), "timeout": rng.choice([None, None, 0, 0.0, 0.2, 1.0, 30.0]),
-            "resolve_exc": rng.random() < 0.2,
+            "resolve_exc": rng.random() < 0.2, "attr_exc": rng.random() < 0.25,
             "ncancel": rng.choice([1, 2, 3]), "cancel_at": rng.choice([0, 0.02, 0.05, 0.1]), "settle": 3.0}
     if spec["state"] == "never" and spec["timeout"] is None and mode == "op":
         spec["timeout"] = 1.0
@@ -126,7 +126,8 @@ def run(spec, env):
     state = spec["state"]
     if mode == "nocancel":
         return run_nocancel(spec, env, inner)
-    inner_exc = env.exc(("inner",))
+    # an AttributeError as the future's exception is the edge case proxy.__getattr__ singles out
+    inner_exc = AttributeError("scripted attribute error") if spec.get("attr_exc") else env.exc(("inner",))
     if state == "resolved":
         inner.set_running_or_notify_cancel()
         inner.set_result(_fresh(spec["val"]))
